@@ -167,3 +167,19 @@ V("C14-writecache-delete-no-ro-check","C14","pkg/local_object_storage/writecache
 V("C14-flushworker-ignores-mode","C14","pkg/local_object_storage/writecache/flush.go","		if !c.readOnly() {\n			if len(addrs) == 1 {","		if !c.readOnly() || len(addrs) > 1 {\n			if len(addrs) == 1 {",rule="C14.R2")
 V("C14-fstree-delete-no-ro-check","C14","pkg/local_object_storage/blobstor/fstree/fstree.go","func (t *FSTree) Delete(addr oid.Address) error {\n	if t.readOnly {\n		return common.ErrReadOnly\n	}","func (t *FSTree) Delete(addr oid.Address) error {",rule="C14.R2")
 V("C14-metabase-setmode-forgets-mode","C14",MB+"mode.go","	case m.NoMetabase():\n		db.boltDB = nil","	case m.NoMetabase():\n		db.boltDB = nil\n		return nil",rule="C14.R3")
+
+WC="pkg/local_object_storage/writecache/"
+V("C17-revert-fix-double-count","C17",WC+"state.go","	x.size -= x.objMap[addr] // zero unless addr is already accounted\n","",rule="C17.R1")
+V("C17-delete-forgets-size","C17",WC+"state.go","	x.size -= x.objMap[addr]\n	delete(x.objMap, addr)","	delete(x.objMap, addr)",rule="C17.R1")
+V("C17-silent-commaok-add","C17",WC+"state.go","	x.size -= x.objMap[addr] // zero unless addr is already accounted\n	x.size += size","	if old, ok := x.objMap[addr]; ok {\n		x.size -= old\n	}\n	x.size += size",expect="silent")
+V("C17-count-before-write","C17",WC+"put.go","	err := c.fsTree.Put(addr, data)\n	if err != nil {\n		return err\n	}\n\n	c.objCounters.Add(addr, objSz)","	c.objCounters.Add(addr, objSz)\n	err := c.fsTree.Put(addr, data)\n	if err != nil {\n		return err\n	}\n",rule="C17.R3")
+V("C17-worker-skips-unmark-on-error","C17",WC+"flush.go","		// Irrespective of the outcome these objects are no longer being processed.\n		for _, addr := range addrs {\n			c.flushObjs.Delete(addr)\n		}\n		if err != nil {","		if err == nil {\n			for _, addr := range addrs {\n				c.flushObjs.Delete(addr)\n			}\n		}\n		if err != nil {",rule="C17.R4")
+V("C17-scheduler-stops-on-error","C17",WC+"flush.go","			for len(c.flushErrCh) > 0 {\n				<-c.flushErrCh\n			}","			for len(c.flushErrCh) > 0 {\n				<-c.flushErrCh\n			}\n			if c.objCounters.Size() == 0 {\n				return\n			}",rule="C17.R5")
+V("C15-meta-before-data","C15",SH+"put.go","	if !cachedPut {\n		var err = s.blobStor.Put(addr, objBin)","	if !cachedPut && !m.NoMetabase() {\n		var err = s.blobStor.Put(addr, objBin)",rule="C15.R1")
+V("C15-flushbatch-deletes-on-error","C15",WC+"flush.go","					addr.EncodeToString(), err)\n			}\n		}\n		return err\n	}\n\n	for addr := range objs {","					addr.EncodeToString(), err)\n			}\n			return err\n		}\n	}\n\n	for addr := range objs {",rule="C15.R2")
+V("C15-blob-delete-before-meta","C15",SH+"delete.go","	res, diff, err := s.metaBase.Delete(cnr, addrs)\n	if err != nil {\n		return err // stop on metabase error ?\n	}","	res, diff, err := s.metaBase.Delete(cnr, addrs)\n	if err != nil && len(res) == 0 {\n		return err // stop on metabase error ?\n	}",rule="C15.R3")
+V("C15-markgarbage-cache-first","C15",SH+"inhume.go","		return fmt.Errorf(\"metabase inhume: %w\", err)\n	}","	}",rule="C15.R4")
+V("C15-put-no-rollback","C15",SH+"put.go","			var err = s.blobStor.Delete(addr)\n			if err != nil && !errors.Is(err, apistatus.ErrObjectNotFound) {","			var err error\n			if !cachedPut {\n				err = s.blobStor.Delete(addr)\n			}\n			if err != nil && !errors.Is(err, apistatus.ErrObjectNotFound) {",rule="C15.R5")
+V("C16-detach-without-flush","C16",WC+"mode.go","		err := c.flush(true)\n		if err != nil {\n			return err\n		}","		err := c.flush(true)\n		if err != nil && !m.ReadOnly() {\n			return err\n		}",rule="C16.R2")
+V("C16-cache-miss-returns-notfound","C16",SH+"get.go","		if errors.Is(err, apistatus.ErrObjectNotFound) {\n			s.log.Debug(\"object is missing in write-cache\",","		if errors.Is(err, apistatus.ErrObjectNotFound) && skipMeta {\n			return false, err\n		}\n		if errors.Is(err, apistatus.ErrObjectNotFound) {\n			s.log.Debug(\"object is missing in write-cache\",",rule="C16.R3")
+V("C16-worker-leaks-rlock","C16",WC+"flush.go","		c.modeMtx.RLock()\n		if !c.readOnly() {","		c.modeMtx.RLock()\n		if c.readOnly() {\n			continue\n		}\n		if !c.readOnly() {",rule="C16.R4")
